@@ -55,6 +55,11 @@ type c14Thread struct {
 	chosen   int
 	host     int32
 	reported bool
+	ctx      context.Context
+	cancel   context.CancelFunc
+	// the transport found the request's context cancelled and answered context.Canceled at once
+	cancelSeen int32
+	retried    bool
 }
 
 func (t *c14Thread) set(s int32) { atomic.StoreInt32(&t.state, s) }
@@ -125,6 +130,12 @@ func (t *c14Transport) RoundTrip(req *http.Request) (*http.Response, error) {
 		// the upstream block adds this header once per request (C04); a request that lost its slot and
 		// selected again must not carry it twice
 		atomic.StoreInt32(&t.s.tagTimes, int32(n))
+	}
+	if req.Context().Err() != nil {
+		// the client is gone: like http.Transport, give up at once (the request was counted in just before)
+		atomic.StoreInt32(&th.host, int32(t.host))
+		atomic.StoreInt32(&th.cancelSeen, 1)
+		return nil, context.Canceled
 	}
 	atomic.AddInt32(&t.s.inflight[t.host], 1)
 	atomic.StoreInt32(&th.host, int32(t.host))
@@ -204,7 +215,8 @@ func c14Eval(f []string) (string, []string) {
 	pool := proxy.VerifHosts(up)
 	s := &c14Sched{pool: pool, inflight: make([]int32, nHosts)}
 	for i := 0; i < nThreads; i++ {
-		s.threads = append(s.threads, &c14Thread{id: i, choose: make(chan int), ack: make(chan int), goOn: make(chan struct{}), finish: make(chan int)})
+		ctx, cancel := context.WithCancel(context.Background())
+		s.threads = append(s.threads, &c14Thread{id: i, choose: make(chan int), ack: make(chan int), goOn: make(chan struct{}), finish: make(chan int), ctx: ctx, cancel: cancel})
 	}
 	for i, h := range pool {
 		if i < len(unh) && unh[i] == '1' {
@@ -268,7 +280,7 @@ func c14Eval(f []string) (string, []string) {
 				recover()
 				th.set(c14Done)
 			}()
-			req := httptest.NewRequest("GET", "http://front.test/", nil)
+			req := httptest.NewRequest("GET", "http://front.test/", nil).WithContext(th.ctx)
 			req.Header.Set("X-Verif-Thread", strconv.Itoa(th.id))
 			req.RemoteAddr = "192.0.2.1:4000"
 			p.ServeHTTP(httptest.NewRecorder(), req)
@@ -302,6 +314,14 @@ func c14Eval(f []string) (string, []string) {
 				events = append(events, [2]int{1000, 0})
 				continue
 			}
+			if strings.HasPrefix(e, "c:") {
+				t, err := strconv.Atoi(e[2:])
+				if err != nil || t < 0 || t >= nThreads {
+					return "bad-case", nil
+				}
+				events = append(events, [2]int{2000 + t, 0})
+				continue
+			}
 			p := strings.Split(e, ":")
 			if len(p) != 2 {
 				return "bad-case", nil
@@ -331,6 +351,17 @@ func c14Eval(f []string) (string, []string) {
 			}
 			tags["failure-expired-while-another-outstanding"] = len(queue) > 0 || tags["failure-expired-while-another-outstanding"]
 			snaps = append(snaps, snapshot("exp:"+strconv.Itoa(h)))
+			continue
+		}
+		if ev[0] >= 2000 {
+			// the client of this request goes away; the request notices at its next round trip
+			th := s.threads[ev[0]-2000]
+			th.cancel()
+			if st := th.get(); st == c14AtBarrier || st == c14Chosen || st == c14Running {
+				tags["cancelled-between-attempts"] = th.retried || tags["cancelled-between-attempts"]
+				tags["cancelled-before-forward"] = true
+			}
+			snaps = append(snaps, snapshot("noop"))
 			continue
 		}
 		th, x := s.threads[ev[0]], ev[1]
@@ -400,6 +431,13 @@ func c14Eval(f []string) (string, []string) {
 			}
 			if th.get() == c14InTransport {
 				label = "fwd:" + strconv.Itoa(int(atomic.LoadInt32(&th.host)))
+			} else if atomic.LoadInt32(&th.cancelSeen) == 1 {
+				// counted in, found cancelled by the transport, counted out, ended with 499
+				if !c14Wait(th, c14Done) {
+					return stuck("cancelled")
+				}
+				th.reported = true
+				label = "fin:" + strconv.Itoa(int(atomic.LoadInt32(&th.host))) + ":cancel"
 			} else {
 				// the slot was lost and the request selected again at once: it waits at the barrier again, or,
 				// with no backend available, it has ended (the model accounts for that in the same action)
@@ -414,6 +452,7 @@ func c14Eval(f []string) (string, []string) {
 			th.finish <- o
 			if retry && o == 1 {
 				tags["retried-after-failure"] = true
+				th.retried = true
 				// the attempt ends; the request records the failure and comes back to Select
 				if arrive(th, c14AtBarrier, c14Done) == "stuck" {
 					snaps = append(snaps, snapshot("fin:"+strconv.Itoa(h)+":"+c14Outcomes[o]))
@@ -427,6 +466,9 @@ func c14Eval(f []string) (string, []string) {
 			}
 			label = "fin:" + strconv.Itoa(h) + ":" + c14Outcomes[o]
 			tags["outcome-"+c14Outcomes[o]] = true
+			if th.retried && o != 1 {
+				tags["retried-attempt-ends-"+c14Outcomes[o]] = true
+			}
 			if o == 1 && expiry == "3" {
 				queue = append(queue, h)
 				time.Sleep(120 * time.Millisecond)
@@ -481,6 +523,13 @@ func c14Eval(f []string) (string, []string) {
 	return strings.Join(snaps, ";"), tl
 }
 
+func c14Ev(e [2]int) string {
+	if e[0] >= 2000 {
+		return fmt.Sprintf("c:%d", e[0]-2000)
+	}
+	return fmt.Sprintf("%d:%d", e[0], e[1])
+}
+
 func c14Gen(g *hx.Gen) {
 	r := g.Rng
 	emit := func(nHosts, mc, mf, expiry int, unh string, nThreads int, evs [][2]int) {
@@ -493,7 +542,7 @@ func c14Gen(g *hx.Gen) {
 		}
 		parts := make([]string, len(evs))
 		for i, e := range evs {
-			parts[i] = fmt.Sprintf("%d:%d", e[0], e[1])
+			parts[i] = c14Ev(e)
 		}
 		g.Case(strconv.Itoa(nHosts), strconv.Itoa(mc), strconv.Itoa(mf), strconv.Itoa(expiry), unh, strconv.Itoa(nThreads), strings.Join(parts, ","), "0")
 	}
@@ -582,7 +631,7 @@ func c14Gen(g *hx.Gen) {
 		}
 		parts := make([]string, len(evs))
 		for i, e := range evs {
-			parts[i] = fmt.Sprintf("%d:%d", e[0], e[1])
+			parts[i] = c14Ev(e)
 		}
 		g.Case(strconv.Itoa(nHosts), strconv.Itoa(mc), "50", strconv.Itoa(expiry), strings.Repeat("0", nHosts), strconv.Itoa(nThreads), strings.Join(parts, ","), "1")
 	}
@@ -601,6 +650,23 @@ func c14Gen(g *hx.Gen) {
 						a = append(a, [2]int{0, (prefs >> uint(i)) & 1}, [2]int{0, 0}, [2]int{0, out})
 					}
 					emitRetry(2, mc, expiry, 1, a)
+					// the client goes away at every point of the run (before the start, while selected, while being
+					// forwarded, between two attempts): the request ends with 499 at its next round trip
+					for pos := 0; pos <= len(a); pos++ {
+						if !g.Thorough() && (pos+prefs+fails+mc)%2 != 0 {
+							continue
+						}
+						b := append([][2]int{}, a[:pos]...)
+						b = append(b, [2]int{2000, 0})
+						b = append(b, a[pos:]...)
+						emitRetry(2, mc, expiry, 1, b)
+					}
+					// the retried attempt ends with a panic / a cancellation / an over-long body instead of an answer
+					for _, out := range []int{4, 2, 3} {
+						b := append([][2]int{}, a...)
+						b[len(b)-1] = [2]int{0, out}
+						emitRetry(2, mc, expiry, 1, b)
+					}
 					if mc != 1 || true {
 						// a second request takes its three steps after the i-th step of the first
 						for pos := 0; pos <= len(a); pos += 2 {
@@ -638,6 +704,9 @@ func c14Gen(g *hx.Gen) {
 				x = r.Intn(2)
 			}
 			evs[i] = [2]int{r.Intn(nThreads), x}
+			if r.Chance(1, 12) {
+				evs[i] = [2]int{2000 + r.Intn(nThreads), 0}
+			}
 		}
 		emitRetry(nHosts, mc, r.Intn(2), nThreads, evs)
 	}
@@ -672,6 +741,9 @@ func c14Gen(g *hx.Gen) {
 				x = r.Intn(2)
 			}
 			evs[i] = [2]int{r.Intn(nThreads), x}
+			if r.Chance(1, 15) {
+				evs[i] = [2]int{2000 + r.Intn(nThreads), 0}
+			}
 		}
 		emit(nHosts, r.Intn(4), 1+r.Intn(3), expiry, unh, nThreads, evs)
 	}
